@@ -514,5 +514,5 @@ func clip(s string, n int) string {
 }
 
 func TestC11(t *testing.T) {
-	drv.Main(t, drv.Driver{ID: "C11", Gen: gen11, Run: run11, CaseTimeout: 8 * time.Minute})
+	drv.Main(t, drv.Driver{ID: "C11", Gen: gen11, Run: run11, CaseTimeout: 30 * time.Minute})
 }
